@@ -7,6 +7,7 @@ package cpu65c816
 // Summary of Step used by callers (System.RunUntil). Its cycle clause is proved per opcode by the lemmas
 // StepCycles65 (property C12); here it is assumed for every state, including pending interrupts.
 //@ func (*CPU).Step
+//@   params cpu
 //@   modular
 //@   trusted
 //@   ensures ret1 >= 1 && ret1 <= 32
@@ -14,6 +15,7 @@ package cpu65c816
 
 // The disassembler only writes its output slice and the bus debug fields (frame proved under C14).
 //@ func (*CPU).DisassembleCurrentPC
+//@   params c o
 //@   modular
 //@   trusted
 //@   assigns c.Bus.EA, c.Bus.Write
